@@ -17,7 +17,22 @@ class Walk:
         self.g = r['graph']
         self.n = len(self.g['nodes'])
         self.kids = [nd['kids'] for nd in self.g['nodes']]
-        self.anc = [set(nd['anc']) for nd in self.g['nodes']]
+        # ancestors = closure of the edges (NOT the ancestry attribute of the
+        # implementation, whose faithfulness is part of what is checked)
+        par = [set() for _ in range(self.n)]
+        for i, nd in enumerate(self.g['nodes']):
+            for k in nd['kids']:
+                if k != i:
+                    par[k].add(i)
+        self.anc = []
+        for y in range(self.n):
+            seen, todo = set(), list(par[y])
+            while todo:
+                a = todo.pop()
+                if a not in seen and a != y:
+                    seen.add(a)
+                    todo.extend(par[a])
+            self.anc.append(seen)
         self.desc = [set() for _ in range(self.n)]
         for y in range(self.n):
             for a in self.anc[y]:
